@@ -1,14 +1,556 @@
-//! Structure-aware Byzantine operations on decoded data (C14 catalog, C01 re-attribution).
-use crate::tamper::ForgeOp;
-use crate::world::World;
-use air_interpreter_data::InterpreterData;
+//! Structure-aware Byzantine operations on decoded data (C14 catalog, C01 re-attribution and
+//! structural mutation). Data is edited through its own serde form (to_value -> edit -> from_value),
+//! so "structurally valid" holds by construction. The attacker re-signs only its own result set.
 
-/// Returns the tampered data and, if the op altered something attributed to a peer other than
-/// the attacker, a "must reject" tag.
-pub fn apply(_w: &World, _data: InterpreterData, _by: usize, _op: &ForgeOp, _particle: &str) -> Option<(InterpreterData, Option<String>)> {
-    None
+use crate::rngx::Rng;
+use crate::tamper::ForgeOp;
+use crate::world::{MsgId, World};
+use air_interpreter_data::{InterpreterData, ServiceResultCidAggregate};
+use polyplets::SecurityTetraplet;
+use serde_json::{json, Value};
+
+fn agg_cid(v: &Value) -> Option<String> {
+    let t: ServiceResultCidAggregate = serde_json::from_value(v.clone()).ok()?;
+    Some(air_interpreter_cid::value_to_json_cid(&t).ok()?.get_inner().to_string())
+}
+fn tet_cid(v: &Value) -> Option<String> {
+    let t: SecurityTetraplet = serde_json::from_value(v.clone()).ok()?;
+    Some(air_interpreter_cid::value_to_json_cid(&t).ok()?.get_inner().to_string())
+}
+fn raw_cid(raw: &str) -> String {
+    air_interpreter_cid::raw_value_to_json_cid::<air_interpreter_data::RawValue>(raw.as_bytes()).get_inner().to_string()
 }
 
-pub fn draw(_w: &World, _rng: &mut crate::rngx::Rng, _mid: crate::world::MsgId, _from: usize) -> Option<Vec<ForgeOp>> {
+/// the cid a call state refers to: (kind path, cid)
+fn state_cid(st: &Value) -> Option<(&'static str, String)> {
+    let c = st.get("call")?;
+    if let Some(e) = c.get("executed") {
+        if let Some(s) = e.get("scalar") {
+            return Some(("scalar", s.as_str()?.to_string()));
+        }
+        if let Some(s) = e.get("stream") {
+            return Some(("stream", s.get("cid")?.as_str()?.to_string()));
+        }
+        if let Some(s) = e.get("unused") {
+            return Some(("unused", s.as_str()?.to_string()));
+        }
+    }
+    if let Some(f) = c.get("failed") {
+        return Some(("failed", f.as_str()?.to_string()));
+    }
     None
+}
+fn set_state_cid(st: &mut Value, new: &str) {
+    if let Some(c) = st.get_mut("call") {
+        if let Some(e) = c.get_mut("executed") {
+            if e.get("scalar").is_some() {
+                e["scalar"] = json!(new);
+            } else if e.get("stream").is_some() {
+                e["stream"]["cid"] = json!(new);
+            }
+        } else if c.get("failed").is_some() {
+            c["failed"] = json!(new);
+        }
+    }
+}
+
+struct Doc {
+    j: Value,
+}
+impl Doc {
+    fn aggs_of_others(&self, me: &str) -> Vec<String> {
+        // service-result aggregate cids referenced by the trace and attributed to a peer other than `me`
+        let mut v = vec![];
+        let empty = vec![];
+        for st in self.j["trace"].as_array().unwrap_or(&empty) {
+            if let Some((kind, cid)) = state_cid(st) {
+                if kind == "unused" {
+                    continue;
+                }
+                if let Some(p) = self.peer_of_agg(&cid) {
+                    if p != me && !v.contains(&cid) {
+                        v.push(cid);
+                    }
+                }
+            }
+        }
+        v.sort();
+        v
+    }
+    fn peer_of_agg(&self, cid: &str) -> Option<String> {
+        let agg = self.j["cid_info"]["service_result_store"].get(cid)?;
+        let t = self.j["cid_info"]["tetraplet_store"].get(agg.get("tetraplet_cid")?.as_str()?)?;
+        Some(t.get("peer_pk")?.as_str()?.to_string())
+    }
+    /// replace an aggregate by a modified one, keeping stores and trace consistent; returns the new cid
+    fn rekey_agg(&mut self, old: &str, new_agg: Value) -> Option<String> {
+        let new = agg_cid(&new_agg)?;
+        let store = self.j["cid_info"]["service_result_store"].as_object_mut()?;
+        store.remove(old);
+        store.insert(new.clone(), new_agg);
+        for st in self.j["trace"].as_array_mut()? {
+            if let Some((_, c)) = state_cid(st) {
+                if c == old {
+                    set_state_cid(st, &new);
+                }
+            }
+        }
+        // canon elements may refer to the aggregate through their provenance
+        if let Some(els) = self.j["cid_info"]["canon_element_store"].as_object_mut() {
+            for (_, e) in els.iter_mut() {
+                if e["provenance"]["cid"].as_str() == Some(old) {
+                    e["provenance"]["cid"] = json!(new);
+                }
+            }
+        }
+        Some(new)
+    }
+}
+
+/// Returns the tampered data and, if the op altered something attributed to a peer other than the
+/// attacker in a way that verification must catch regardless of what the script reaches, a tag.
+pub fn apply(w: &World, data: InterpreterData, by: usize, op: &ForgeOp, particle: &str) -> Option<(InterpreterData, Option<String>)> {
+    let me = w.ids[by].clone();
+    let mut d = Doc { j: serde_json::to_value(&data).ok()? };
+    let mut must: Option<String> = None;
+    let mut resign = true;
+    match op {
+        ForgeOp::ValueSwap { n } => {
+            let c = d.aggs_of_others(&me);
+            if c.is_empty() {
+                return None;
+            }
+            let agg = &c[*n as usize % c.len()];
+            let vcid = d.j["cid_info"]["service_result_store"][agg]["value_cid"].as_str()?.to_string();
+            d.j["cid_info"]["value_store"][&vcid] = json!(format!("{{\"forged\":{n}}}"));
+            must = Some("value_swap".into());
+        }
+        ForgeOp::CidRewrite { n } => {
+            let c = d.aggs_of_others(&me);
+            if c.is_empty() {
+                return None;
+            }
+            let old = c[*n as usize % c.len()].clone();
+            let raw = format!("{{\"forged\":{n},\"by\":\"cid_rewrite\"}}");
+            let nv = raw_cid(&raw);
+            d.j["cid_info"]["value_store"][&nv] = json!(raw);
+            let mut agg = d.j["cid_info"]["service_result_store"][&old].clone();
+            agg["value_cid"] = json!(nv);
+            d.rekey_agg(&old, agg)?;
+            must = Some("cid_rewrite".into());
+        }
+        ForgeOp::ArgHashChange { n } => {
+            let c = d.aggs_of_others(&me);
+            if c.is_empty() {
+                return None;
+            }
+            let old = c[*n as usize % c.len()].clone();
+            let mut agg = d.j["cid_info"]["service_result_store"][&old].clone();
+            agg["argument_hash"] = json!(raw_cid(&format!("[\"forged-args-{n}\"]")));
+            d.rekey_agg(&old, agg)?;
+            must = Some("arg_hash_change".into());
+        }
+        ForgeOp::TetrapletChange { n, field } => {
+            let c = d.aggs_of_others(&me);
+            if c.is_empty() {
+                return None;
+            }
+            let old = c[*n as usize % c.len()].clone();
+            let mut agg = d.j["cid_info"]["service_result_store"][&old].clone();
+            let tc = agg["tetraplet_cid"].as_str()?.to_string();
+            let mut t = d.j["cid_info"]["tetraplet_store"][&tc].clone();
+            match field % 4 {
+                0 => t["peer_pk"] = json!(me), // re-attribute to the attacker (passes signatures; the call check must catch it)
+                1 => t["service_id"] = json!("forged-svc"),
+                2 => t["function_name"] = json!(format!("{}x", t["function_name"].as_str().unwrap_or(""))),
+                _ => t["lens"] = json!(".$.forged"),
+            }
+            let ntc = tet_cid(&t)?;
+            d.j["cid_info"]["tetraplet_store"][&ntc] = t;
+            agg["tetraplet_cid"] = json!(ntc);
+            d.rekey_agg(&old, agg)?;
+            if field % 4 != 0 {
+                must = Some("tetraplet_change".into());
+            }
+        }
+        ForgeOp::Relocate { n, m } => {
+            // swap two results of other peers between their call positions (signature multisets unchanged)
+            let tr = d.j["trace"].as_array()?.clone();
+            let pos: Vec<usize> = tr
+                .iter()
+                .enumerate()
+                .filter(|(_, st)| matches!(state_cid(st), Some((k, ref c)) if k != "unused" && d.peer_of_agg(c).map(|p| p != me).unwrap_or(false)))
+                .map(|(i, _)| i)
+                .collect();
+            if pos.len() < 2 {
+                return None;
+            }
+            let a = pos[*n as usize % pos.len()];
+            let b = pos[*m as usize % pos.len()];
+            if a == b || state_cid(&tr[a]) == state_cid(&tr[b]) {
+                return None;
+            }
+            let arr = d.j["trace"].as_array_mut()?;
+            arr.swap(a, b);
+        }
+        ForgeOp::KindExecutedFailed { n } => {
+            let arr = d.j["trace"].as_array()?.clone();
+            let pos: Vec<usize> = arr
+                .iter()
+                .enumerate()
+                .filter(|(_, st)| matches!(state_cid(st), Some((k, ref c)) if (k == "scalar" || k == "failed") && d.peer_of_agg(c).map(|p| p != me).unwrap_or(false)))
+                .map(|(i, _)| i)
+                .collect();
+            if pos.is_empty() {
+                return None;
+            }
+            let i = pos[*n as usize % pos.len()];
+            let (k, c) = state_cid(&arr[i])?;
+            d.j["trace"][i] = if k == "scalar" { json!({"call": {"failed": c}}) } else { json!({"call": {"executed": {"scalar": c}}}) };
+        }
+        ForgeOp::KindScalarStream { n } => {
+            let arr = d.j["trace"].as_array()?.clone();
+            let pos: Vec<usize> = arr
+                .iter()
+                .enumerate()
+                .filter(|(_, st)| matches!(state_cid(st), Some((k, ref c)) if (k == "scalar" || k == "stream") && d.peer_of_agg(c).map(|p| p != me).unwrap_or(false)))
+                .map(|(i, _)| i)
+                .collect();
+            if pos.is_empty() {
+                return None;
+            }
+            let i = pos[*n as usize % pos.len()];
+            let (k, c) = state_cid(&arr[i])?;
+            d.j["trace"][i] = if k == "scalar" { json!({"call": {"executed": {"stream": {"cid": c, "generation": 0}}}}) } else { json!({"call": {"executed": {"scalar": c}}}) };
+        }
+        ForgeOp::KindUnusedScalar { n } => {
+            let arr = d.j["trace"].as_array()?.clone();
+            let pos: Vec<usize> = arr
+                .iter()
+                .enumerate()
+                .filter(|(_, st)| matches!(state_cid(st), Some((k, ref c)) if k == "scalar" && d.peer_of_agg(c).map(|p| p != me).unwrap_or(false)))
+                .map(|(i, _)| i)
+                .collect();
+            if pos.is_empty() {
+                return None;
+            }
+            let i = pos[*n as usize % pos.len()];
+            let (_, c) = state_cid(&arr[i])?;
+            let vcid = d.j["cid_info"]["service_result_store"][&c]["value_cid"].as_str()?.to_string();
+            d.j["trace"][i] = json!({"call": {"executed": {"unused": vcid}}});
+            must = Some("kind_unused_scalar".into()); // the victim's signed multiset loses an element
+        }
+        ForgeOp::SigSwap { n } | ForgeOp::SigRemove { n } | ForgeOp::SigOwnUnderOther { n } => {
+            let my_pk = crate::tamper::public_key_string(w, by);
+            let sigs = d.j["signatures"].as_object()?.clone();
+            let others: Vec<String> = sigs.keys().filter(|k| **k != my_pk).cloned().collect();
+            if others.is_empty() {
+                return None;
+            }
+            let victim = others[*n as usize % others.len()].clone();
+            // only meaningful if the victim has results in the trace
+            match op {
+                ForgeOp::SigRemove { .. } => {
+                    d.j["signatures"].as_object_mut()?.remove(&victim);
+                }
+                ForgeOp::SigSwap { .. } => {
+                    let other = others[(*n as usize + 1) % others.len()].clone();
+                    if other == victim {
+                        // swap in the attacker's signature instead
+                        let mine = sigs.get(&my_pk)?.clone();
+                        d.j["signatures"][&victim] = mine;
+                    } else {
+                        let a = sigs[&victim].clone();
+                        let b = sigs[&other].clone();
+                        d.j["signatures"][&victim] = b;
+                        d.j["signatures"][&other] = a;
+                    }
+                }
+                _ => {
+                    let mine = sigs.get(&my_pk)?.clone();
+                    d.j["signatures"][&victim] = mine;
+                }
+            }
+            let victim_has_results = {
+                let nd: InterpreterData = serde_json::from_value(d.j.clone()).ok()?;
+                crate::tamper::peers_with_results(&nd).iter().any(|p| crate::tamper::pk_string_of_peer(w, p).as_deref() == Some(victim.as_str()))
+            };
+            if !victim_has_results {
+                return None;
+            }
+            must = Some("signature".into());
+            resign = false;
+        }
+        ForgeOp::TruncateResults { n } => {
+            // drop one result of another peer from the trace (turn it back into a pending marker) while keeping
+            // that peer's newer signature over the larger set
+            let arr = d.j["trace"].as_array()?.clone();
+            let pos: Vec<usize> = arr
+                .iter()
+                .enumerate()
+                .filter(|(_, st)| matches!(state_cid(st), Some((k, ref c)) if k != "unused" && d.peer_of_agg(c).map(|p| p != me).unwrap_or(false)))
+                .map(|(i, _)| i)
+                .collect();
+            if pos.is_empty() {
+                return None;
+            }
+            let i = pos[*n as usize % pos.len()];
+            d.j["trace"][i] = json!({"call": {"sent_by": me}});
+            must = Some("truncate_results".into());
+        }
+        ForgeOp::Reattribute => {
+            reattribute(&mut d, &me)?;
+            // every other signature is dropped: the attacker claims everything
+            let my_pk = crate::tamper::public_key_string(w, by);
+            let keep: Vec<String> = d.j["signatures"].as_object()?.keys().filter(|k| **k != my_pk).cloned().collect();
+            for k in keep {
+                d.j["signatures"].as_object_mut()?.remove(&k);
+            }
+        }
+        ForgeOp::Struct { path_sel, kind, val } => {
+            struct_mutate(&mut d, *path_sel, *kind, *val, &me)?;
+        }
+        _ => return None,
+    }
+    let mut nd: InterpreterData = serde_json::from_value(d.j).ok()?;
+    if resign {
+        crate::tamper::resign_own(w, &mut nd, by, particle);
+    }
+    Some((nd, must))
+}
+
+/// rewrite every tetraplet to name the attacker, keeping service-result stores and the trace consistent
+fn reattribute(d: &mut Doc, me: &str) -> Option<()> {
+    let tets = d.j["cid_info"]["tetraplet_store"].as_object()?.clone();
+    let mut tmap: Vec<(String, String)> = vec![];
+    let mut new_store = serde_json::Map::new();
+    for (c, t) in tets.iter() {
+        let mut t2 = t.clone();
+        t2["peer_pk"] = json!(me);
+        let nc = tet_cid(&t2)?;
+        new_store.insert(nc.clone(), t2);
+        tmap.push((c.clone(), nc));
+    }
+    d.j["cid_info"]["tetraplet_store"] = Value::Object(new_store);
+    let map_t = |c: &str| tmap.iter().find(|(o, _)| o == c).map(|(_, n)| n.clone());
+    let aggs = d.j["cid_info"]["service_result_store"].as_object()?.clone();
+    for (c, a) in aggs.iter() {
+        let mut a2 = a.clone();
+        if let Some(n) = map_t(a["tetraplet_cid"].as_str()?) {
+            a2["tetraplet_cid"] = json!(n);
+        }
+        d.rekey_agg(c, a2)?;
+    }
+    // canon stores: tetraplet references only (element/result cids are left as they are, which makes
+    // canon-bearing data fail store verification - still adversarial input for C01)
+    for store in ["canon_element_store", "canon_result_store"] {
+        if let Some(o) = d.j["cid_info"][store].as_object_mut() {
+            for (_, e) in o.iter_mut() {
+                if let Some(tc) = e.get("tetraplet").and_then(|x| x.as_str()).map(|s| s.to_string()) {
+                    if let Some(n) = map_t(&tc) {
+                        e["tetraplet"] = json!(n);
+                    }
+                }
+            }
+        }
+    }
+    Some(())
+}
+
+pub const ADV_VALUES: &[u64] = &[0, 1, 2, 3, 7, 0x7fff_ffff, 0x8000_0000, 0xffff_fffa, 0xffff_fffe, 0xffff_ffff, 50_000_000, 1_000_000];
+
+/// structural mutation of the (re-attributed) trace / stores
+fn struct_mutate(d: &mut Doc, sel: u32, kind: u8, val: u64, me: &str) -> Option<()> {
+    let n = d.j["trace"].as_array()?.len();
+    match kind % 12 {
+        0 | 1 | 2 | 3 => {
+            // a numeric leaf of the trace set to an adversarial value
+            let mut leaves: Vec<Vec<String>> = vec![];
+            fn collect(v: &Value, path: Vec<String>, out: &mut Vec<Vec<String>>) {
+                match v {
+                    Value::Number(_) => out.push(path),
+                    Value::Array(a) => {
+                        for (i, x) in a.iter().enumerate() {
+                            let mut p = path.clone();
+                            p.push(i.to_string());
+                            collect(x, p, out);
+                        }
+                    }
+                    Value::Object(o) => {
+                        for (k, x) in o.iter() {
+                            let mut p = path.clone();
+                            p.push(k.clone());
+                            collect(x, p, out);
+                        }
+                    }
+                    _ => {}
+                }
+            }
+            collect(&d.j["trace"], vec![], &mut leaves);
+            if leaves.is_empty() {
+                return None;
+            }
+            let p = &leaves[sel as usize % leaves.len()];
+            let mut cur = &mut d.j["trace"];
+            for seg in p {
+                cur = match cur {
+                    Value::Array(a) => a.get_mut(seg.parse::<usize>().ok()?)?,
+                    Value::Object(o) => o.get_mut(seg)?,
+                    _ => return None,
+                };
+            }
+            let base = cur.as_u64().unwrap_or(0);
+            let v = match val % 16 {
+                12 => base.wrapping_add(1),
+                13 => base.saturating_sub(1),
+                14 => n as u64,
+                15 => n as u64 + 1,
+                i => ADV_VALUES[i as usize % ADV_VALUES.len()],
+            };
+            *cur = json!(v & 0xffff_ffff);
+        }
+        4 => {
+            // duplicate a fold lore entry / give it a third descriptor
+            for st in d.j["trace"].as_array_mut()? {
+                if let Some(l) = st.get_mut("fold").and_then(|f| f.get_mut("lore")).and_then(|l| l.as_array_mut()) {
+                    if !l.is_empty() {
+                        let i = sel as usize % l.len();
+                        if val % 2 == 0 {
+                            let e = l[i].clone();
+                            l.push(e);
+                        } else if let Some(ds) = l[i].get_mut("desc").and_then(|x| x.as_array_mut()) {
+                            if val % 4 == 1 {
+                                let e = ds[0].clone();
+                                ds.push(e);
+                            } else {
+                                ds.pop();
+                            }
+                        }
+                        return Some(());
+                    }
+                }
+            }
+            return None;
+        }
+        5 => {
+            // ap generations: empty or long
+            for st in d.j["trace"].as_array_mut()? {
+                if let Some(g) = st.get_mut("ap").and_then(|a| a.get_mut("gens")) {
+                    *g = if val % 2 == 0 { json!([]) } else { json!([0, 1, 2, 3]) };
+                    return Some(());
+                }
+            }
+            return None;
+        }
+        6 => {
+            // a CID present in the trace but absent from the service-result store
+            let arr = d.j["trace"].as_array()?.clone();
+            let c: Vec<String> = arr.iter().filter_map(|s| state_cid(s)).filter(|(k, _)| *k != "unused").map(|x| x.1).collect();
+            if c.is_empty() {
+                return None;
+            }
+            let victim = &c[sel as usize % c.len()];
+            d.j["cid_info"]["service_result_store"].as_object_mut()?.remove(victim);
+        }
+        7 => {
+            // a stored value that hashes correctly but is not JSON
+            let aggs = d.j["cid_info"]["service_result_store"].as_object()?.clone();
+            if aggs.is_empty() {
+                return None;
+            }
+            let (c, a) = aggs.iter().nth(sel as usize % aggs.len())?;
+            let raw = format!("<<not json {val}");
+            let nv = raw_cid(&raw);
+            d.j["cid_info"]["value_store"][&nv] = json!(raw);
+            let mut a2 = a.clone();
+            a2["value_cid"] = json!(nv);
+            d.rekey_agg(c, a2)?;
+        }
+        8 => {
+            // a Failed / pending-by-self state at a random call position
+            if n == 0 {
+                return None;
+            }
+            let i = sel as usize % n;
+            let arr = d.j["trace"].as_array()?.clone();
+            if arr[i].get("call").is_none() {
+                return None;
+            }
+            let any = arr.iter().filter_map(|s| state_cid(s)).find(|(k, _)| *k != "unused").map(|x| x.1);
+            d.j["trace"][i] = match (val % 3, any) {
+                (0, Some(c)) => json!({"call": {"failed": c}}),
+                (1, _) => json!({"call": {"sent_by": {"peer_id": me, "call_id": (val % 7) as u32}}}),
+                (_, Some(c)) => json!({"call": {"executed": {"scalar": c}}}),
+                _ => return None,
+            };
+        }
+        9 => {
+            // swap two trace states (kind confusion)
+            if n < 2 {
+                return None;
+            }
+            let a = sel as usize % n;
+            let b = (val as usize) % n;
+            d.j["trace"].as_array_mut()?.swap(a, b);
+        }
+        10 => {
+            // drop or duplicate a state
+            if n == 0 {
+                return None;
+            }
+            let i = sel as usize % n;
+            let arr = d.j["trace"].as_array_mut()?;
+            if val % 2 == 0 {
+                arr.remove(i);
+            } else {
+                let e = arr[i].clone();
+                arr.insert(i, e);
+            }
+        }
+        _ => {
+            // last_call_request_id at the edge
+            d.j["lcid"] = json!(ADV_VALUES[val as usize % ADV_VALUES.len()] & 0xffff_ffff);
+        }
+    }
+    Some(())
+}
+
+pub fn draw(w: &World, rng: &mut Rng, mid: MsgId, _from: usize) -> Option<Vec<ForgeOp>> {
+    let _ = mid;
+    let n = rng.u32() % 64;
+    let m = rng.u32() % 64;
+    if w.sc.fault_cfg.contains_key("reattribute") {
+        // C01: wholesale re-attribution followed by 0-2 structural mutations (or a catalog op)
+        let r = w.sc.fault_cfg.get("reattribute").cloned().unwrap_or(0);
+        if rng.u32() % 1000 < r {
+            let mut ops = vec![ForgeOp::Reattribute];
+            for _ in 0..rng.below(3) {
+                ops.push(ForgeOp::Struct { path_sel: rng.u32(), kind: (rng.u32() % 12) as u8, val: rng.u64() % 4096 });
+            }
+            return Some(ops);
+        }
+    }
+    let one = |rng: &mut Rng, n: u32, m: u32| -> ForgeOp {
+        match rng.below(13) {
+            0 => ForgeOp::ValueSwap { n },
+            1 => ForgeOp::CidRewrite { n },
+            2 => ForgeOp::TetrapletChange { n, field: (m % 4) as u8 },
+            3 => ForgeOp::ArgHashChange { n },
+            4 => ForgeOp::Relocate { n, m },
+            5 => ForgeOp::KindExecutedFailed { n },
+            6 => ForgeOp::KindScalarStream { n },
+            7 => ForgeOp::KindUnusedScalar { n },
+            8 => ForgeOp::SigSwap { n },
+            9 => ForgeOp::SigRemove { n },
+            10 => ForgeOp::SigOwnUnderOther { n },
+            11 => ForgeOp::TruncateResults { n },
+            _ => ForgeOp::OtherParticle(format!("other-particle-{}", n % 3)),
+        }
+    };
+    let mut ops = vec![one(rng, n, m)];
+    if rng.chance(25) {
+        let n2 = rng.u32() % 64;
+        ops.push(one(rng, n2, n));
+    }
+    Some(ops)
 }
